@@ -1,5 +1,5 @@
 (* C16 runner: data-source history + harness script -> extracted PacketSource model.
-   cfg:<plain|zc|concat>,<nocopy>  p:<hex>,<ts>,<caplen>,<len>,<ifidx>  e:<kind>  s: (next sub-source)
+   cfg:<plain|zc|concat>,<nocopy>[,<lazy>,<pool>] (Lazy/Pool: the model's observables do not depend on them)  p:<hex>,<ts>,<caplen>,<len>,<ifidx>  e:<kind>  s: (next sub-source)
    script: next start restart grant:n grantall recv:n cancel fin fcan:n ; orig: runs the unrepaired constructor *)
 open Util
 module M = C16Model
@@ -48,7 +48,7 @@ let run (id : string) (ops : string list) (out : out_channel) =
   Stdlib.List.iter (fun s ->
     match split_on ':' s with
     | ["cfg"; a] -> (match split_on ',' a with
-        | [k; n] -> kind := (match k with "plain" -> M.SPlain | "zc" -> M.SZero | "concat" -> M.SConcat | _ -> failwith "c16 cfg kind");
+        | k :: n :: _ -> kind := (match k with "plain" -> M.SPlain | "zc" -> M.SZero | "concat" -> M.SConcat | _ -> failwith "c16 cfg kind");
                     nocopy := (n = "1")
         | _ -> failwith "c16 cfg")
     | ["orig"] -> orig := true
